@@ -146,7 +146,8 @@ OnReadErr(r, ev) ==
 
 OnInt(r, ev) ==
   LET d == r.d
-      d2 == RunService(d)
+      \* (a service that ran when none was due is reported by the first check; the model is then not consulted)
+      d2 == IF d.phase = "service" THEN RunService(d) ELSE d
       obs == MkMem(ev.memw)
       addrs == (DOMAIN obs \cup DOMAIN d2.m.mem) \ d2.freemem
       po(a) == IF a \in DOMAIN obs THEN obs[a] ELSE Rd(d.m, a)
